@@ -159,6 +159,25 @@ def build_unit(ob, src_text):
     return text, log
 
 
+def _error_descriptions(out):
+    """One description per Verus error: the message plus the first source line the error points at (the failed
+    ensures/requires/assert clause), so that two different failed clauses of one function are distinguishable."""
+    descs = []
+    blocks = re.split(r"(?m)^(?=error)", out)
+    for b in blocks:
+        m = re.match(r"error(?:\[[A-Z0-9]+\])?: (.*)", b)
+        if not m:
+            continue
+        msg = m.group(1).strip()
+        if msg.startswith("aborting due to"):
+            continue
+        code = re.search(r"(?m)^\s*\d+ \|[ /|]*(\S.*)$", b)
+        if code:
+            msg += " :: " + code.group(1).strip()[:160]
+        descs.append(msg)
+    return descs
+
+
 def run_group(pid, obs, args, records, log, mk_record):
     for ob in obs:
         t0 = time.time()
@@ -192,7 +211,7 @@ def run_group(pid, obs, args, records, log, mk_record):
                 r["status"] = "discharged"
                 r["n_checks"] = int(m.group(1))
             elif m and int(m.group(2)) > 0:
-                errs = re.findall(r"^error: (.*)$", out, re.M)
+                errs = _error_descriptions(out)
                 if any("rlimit" in e.lower() or "resource limit" in e.lower() for e in errs):
                     r["status"], r["reason"] = "undecided", "verus rlimit: " + "; ".join(errs[:2])
                 else:
